@@ -421,6 +421,27 @@ def check(prop: str, tier: str, seed: int, replay: str | None = None) -> int:
         ncorpus = len(cases)
         cases += list(mod.cases(rng, tier))
         cov["corpus_cases"] = ncorpus
+        # the library source differs from the state the model was validated against: widen the quick exploration
+        # (further PRNG streams of the same generators, bounded by a case count) — see harness/fingerprint.py
+        try:
+            from . import fingerprint
+
+            src_changed = fingerprint.changed()
+        except Exception as e:
+            src_changed = ["fingerprint failed: " + repr(e)[:100]]
+        cov["source_changed_since_validation"] = src_changed
+        if src_changed and tier == "quick" and os.environ.get("VERIF_NO_WIDEN") != "1":
+            base_n = max(1, len(cases) - ncorpus)
+            extra = int(os.environ.get("VERIF_WIDEN_STREAMS", "3"))
+            for k in range(1, extra + 1):
+                rng_k = random.Random((seed + 7919 * k) * 1000003 + int(hashlib.sha256(prop.encode()).hexdigest()[:8], 16))
+                more = []
+                for c in mod.cases(rng_k, tier):
+                    more.append(c)
+                    if len(more) >= base_n:
+                        break
+                cases += more
+            cov["widened_streams"] = extra
     outcome = run_cases(mod, cases, known, violations, known_hits)
     cov.update(outcome["cov"])
     corr_broken = outcome["disagreements"]
